@@ -149,6 +149,11 @@ class Report:
         self.coverage = {}
         self.assumptions = []
         self.replay_n = 0
+        d = os.path.join(VERIF, 'replays')
+        if os.path.isdir(d):
+            for f in os.listdir(d):
+                if f.startswith(f'{prop}-{tier}-'):
+                    os.unlink(os.path.join(d, f))
 
     def replay_path(self):
         d = os.path.join(VERIF, 'replays')
